@@ -117,7 +117,8 @@ def check_property(prop, tier, jobs, use_cache=True):
             continue
         if info.get('status') == 'undecided':
             undecided.append(f"{info.get('function')}[{info.get('mode')}]: {info.get('reason')}")
-            continue
+            if not res:
+                continue
         solver_s += info.get('solve_s') or 0
         for r in res:
             o = obligations.setdefault(r['name'], {'name': r['name'], 'paths': 0, 'discharged': 0, 'failed': [], 'unknown': 0,
